@@ -91,8 +91,9 @@ class C02(PropCheck):
             'deterministic adversarial-but-legal corners (harness/families.py totality_documents): zero-size floats '
             'before floats that do not fit, auto tables with constrained empty columns, short paragraphs on tiny pages '
             'with large orphans/widows, degenerate multi-column / flex / grid containers, pages smaller than their '
-            'margins - each rendered and written with a 20 s limit; ids already failing on the pinned tree are in '
-            'corpus/C02/family_known.json; non-trivial = every case')
+            'margins, grid placements, form controls with pdf_forms, CSS functions of every small arity - each rendered '
+            'and written with a 5 s CPU limit (a document takes ~30 ms); documents already failing on the pinned tree '
+            'are in corpus/C02/family_known.json as {id: [outcome, finding id]}; non-trivial = every case')
         import json
         from harness import families
         from vlib.paths import CORPUS
@@ -100,32 +101,29 @@ class C02(PropCheck):
         self._family_known = json.loads(known_path.read_text()) if known_path.exists() else {}
         for doc_id, html, *rest in families.totality_documents():
             options = rest[0] if rest else {}
-            out = wide_trace.render_outcome(html, options=options)
+            out = wide_trace.render_outcome(html, limit_s=5, options=options)
             sec4.add(sx.line('total'), out, meta={'doc_id': doc_id, 'html': html, 'options': options},
                      tags=[doc_id.split('-')[1]])
 
     def classify(self, d):
-        if d['section'] == 'totality-families' and self._family_known.get(d['meta']['doc_id']) == d['impl']:
-            return 'family-documents-known'
+        if d['section'] == 'totality-families':
+            # a listed document is explained only by the very outcome recorded for it
+            outcome, finding = self._family_known.get(d['meta']['doc_id'], (None, None))
+            return finding if outcome == d['impl'] else None
         if d['section'] in ('pm-outcomes', 'pm-oof-outcomes', 'pm-foot-outcomes', 'pm-col-outcomes') and (
                 d['impl'] == 'err:IndexError@page.py:_update_page_groups'):
             return 'page-groups-indexerror'
         if d['section'] == 'pm-foot-outcomes':
             return pm_foot_corr.classify(pm_foot_corr.doc_from_json(d['meta']['doc']), d['impl'])
-        if False:
-            return ''
         if d['section'] == 'wide-total' and d['impl'].startswith('err:'):
             if d['impl'].endswith('@inline.py:skip_first_whitespace') and 'flex' in d['meta'].get('features', ()):
                 return 'flex-item-resume-crash'
         return None
 
     def finding_replays(self):
-        return {'flex-item-resume-crash': flex_resume_crash, 'page-groups-indexerror': page_groups_crash,
-                'footnote-policy-block-crash': pm_foot_corr.FINDING_REPLAYS['footnote-policy-block-crash'],
-                'find-earlier-break-in-columns-attribute-error':
-                    lambda: pm_col_corr.replay_witness('colspan_find_earlier_attribute_error'),
-                'footnote-page-groups-attributeerror':
-                    pm_foot_corr.FINDING_REPLAYS['footnote-page-groups-attributeerror']}
+        return {**pm_stage2.finding_replays(),
+                'flex-item-resume-crash': flex_resume_crash, 'page-groups-indexerror': page_groups_crash,
+                'grid-named-span-hang': grid_named_span}
 
     def judge(self, d):
         if d['impl'].startswith('err:'):
@@ -168,6 +166,24 @@ PAGE_GROUPS_CRASH = (
     '<p style="page:pb">w7x0</p></div></div>')
 
 
+GRID_NAMED_SPAN = [
+    # (declarations of the item, grid-auto-flow, expected class of outcome)
+    ('grid-row:1;grid-column:span a', 'row', 'err:Hang'),
+    ('grid-row-end:span a', 'column', 'err:Hang'),
+    ('grid-row-start:span a', 'row', 'err:IndexError'),
+]
+
+
+def grid_named_span():
+    """A span to a line name that the grid does not have: placement never terminates, or the item lands on tracks
+    before the grid and track sizing raises IndexError."""
+    for decl, flow, _ in GRID_NAMED_SPAN:
+        html = f'<div style="display:grid;grid-auto-flow:{flow}"><div style="{decl}">x</div></div>'
+        if wide_trace.render_outcome(html, limit_s=2) != 'ok':
+            return True
+    return False
+
+
 def page_groups_crash():
     return wide_trace.render_outcome(PAGE_GROUPS_CRASH).startswith('err:IndexError')
 
@@ -183,5 +199,5 @@ MANIFEST = {
     'technique': 'Lean 4 totality theorems on the pagination model (root assertion unreachable for every document), '
                  'outcome-kind correspondence with the real layout and PDF writer on adversarial documents',
     'text': 'Proved for all documents of the block/paragraph grammar: make_page never fails its root assertion; pagination terminates with at most 2*size(document) pages and at least one (C02.paginate_terminates, from the strict-progress theorem), so the explicit fuel of the model is irrelevant. Outcome kinds (pages vs exception class) are compared with the real code on random and adversarial documents, through layout and through write_pdf.',
-    'note': 'Partial: totality is a theorem only for the pagination model (no fixed heights, orphans/widows >= 1); code outside it (inline layout, tables, flex, grid, drawing, PDF writing) is covered by the sampled totality runs, which are validation, not proof.',
+    'note': 'Partial: totality is a theorem only for the pagination model (no fixed heights, orphans/widows >= 1); code outside it (inline layout, tables, flex, grid, drawing, PDF writing) is covered by the sampled totality runs, which are validation, not proof. Known findings (printed, not alarms): flex item resume crash, page-groups IndexError / AttributeError, grid span to a line name that does not exist (hang or IndexError; the family documents showing it are listed with their exact outcome in corpus/C02/family_known.json).',
 }
